@@ -8,6 +8,7 @@ def run(ctx, rep):
                 "configurations, each load under a 2 s watchdog; hang or an exception other than LexerError/ParseError is "
                 "a C06 violation; character level: every string <= 4 (5 thorough) over an 18-character alphabet and <= 3/4 over two further alphabets (control, non-ASCII and numeric characters) explored by TLC on spec/MC_Loader.tla, 5 configurations. distinct = (config, token sequence, layout); non-trivial = >= 3 tokens" % maxlen)
     parser_loop_model(ctx, rep)
+    generator_protocol(ctx, rep)
     fails = tokenlevel.run_tokens(ctx, rep, maxlen, ["C06"])
     other = {}
     for prop, sig, case, detail in fails:
@@ -30,6 +31,33 @@ def run(ctx, rep):
         else:
             other[prop] = other.get(prop, 0) + 1
     rep.coverage_extra["failures_attributed_to_other_properties"] = other
+
+
+def generator_protocol(ctx, rep):
+    """spec/TokenStream.tla: the next/send/throw protocol between parser and lexer generator; theorems by TLC, then the
+    calls of the real parsers on every token sequence <= 5 (6 thorough) of the reference grammar are validated against it
+    (diagnostic binding, see harness/props/protocol.py)."""
+    from .. import loaders
+    from . import protocol
+    protocol.model(ctx, rep)
+    n = 6 if ctx.thorough else 5
+    cache, jobs = {}, []
+    for config in loaders.CONFIGS:
+        d = loaders.GRAMMAR_CFG[config]
+        if d not in cache:
+            cache[d] = tokenlevel.emit_cases(ctx, rep, d, n)
+        for c in cache[d]:
+            if c["toks"]:
+                jobs.append((config, tokenlevel.concretise(c["toks"], " ")))
+    protocol.run_protocol(ctx, rep, jobs, "token sequences <= %d x 5 configurations" % n)
+    from . import docs
+    jobs = []
+    for config in loaders.CONFIGS:
+        for prof in ("layout", "missing"):
+            for c in docs.emit(ctx, rep, config, prof, 2):
+                jobs.append((config, loaders.cps(c["text"])))
+    jobs = jobs[::3] if ctx.thorough else jobs[::25]
+    protocol.run_protocol(ctx, rep, jobs, "generated labels (nested blocks, collections, units, comments in gaps, missing values) x 5 configurations")
 
 
 def _load_value(job):
